@@ -102,7 +102,7 @@ structure Wrapper where
   /-- the statement reached when nothing failed returns the success value (0); `true` for void/value wrappers -/
   finalSucceeds : Bool
   calls : List Call
-  deriving Repr, Inhabited
+  deriving DecidableEq, Repr, Inhabited
 
 /-- What the C caller observes. `success` = 0 / the non-NULL pointer produced by the C++ operation;
     `failure` = non-zero / NULL; `value` = the C++ value, unchanged; `escapes` = an exception propagates out of the
